@@ -4,7 +4,14 @@ from vlib import *
 from l2common import *
 import streams
 
-THEOREMS = {"C04": ["apply_patch_replay", "apply_patch_verdicts", "verdicts_are_admissible", "section_failure_flag"],
+THEOREMS = {"C04": ["apply_patch_replay", "apply_patch_verdicts", "verdicts_are_admissible", "section_failure_flag",
+                    "write_hunk_as_context_iff", "counts_ok_writable", "apply_never_fatal", "never_asks_no_question",
+                    "apply_patch_ok_iff", "question_throws", "apply_never_fatal_define", "apply_patch_throws_only_from",
+                    "section_reject_iff", "section_refused_rejects", "section_dry_run_writes_nothing", "section_flag",
+                    "loop_flag", "exit_status_truth", "run_exit_status", "run_throws_only_from", "skipped_is_failed",
+                    "section_report", "parse_unified_counts", "header_full_hunks", "parsed_unified_never_fatal",
+                    "unified_section_hunk_failure_never_fatal", "unified_run_hunk_failure_never_fatal",
+                    "run_hunk_failure_never_fatal"],
             "C05": ["reverse_hunk_involutive", "conforming_reverse", "apply_reverse", "section_forward_writes",
                     "section_reverse_restores", "section_roundtrip", "section_roundtrip_bytes", "section_creates",
                     "section_reverse_of_creation_removes", "section_deletes", "section_reverse_of_deletion_recreates",
